@@ -142,4 +142,7 @@ def nextPairs : R (List (Bytes × Bytes)) := fun s =>
   | .ok [] => .error (errMissing b!"key" errEOM)
   | .ok ps => .ok (mapOfPairs ps, [])
 
+/-- a request element as clients send it: a non-null bulk string -/
+def B (b : Bytes) : Msg := .bulk (some b)
+
 end GoRedis
